@@ -11,6 +11,26 @@ CLAIMED = {
             "Theorems c08_* (never early, always once expired, cooldown blocks and is <= 1 min, refresh opportunity, exact schedule, metadata consistency) proved for all integer timestamps over Model/SessionTime.v instantiated at the constants dumped from the compiled code; the model is tied to pkg/session/data.go by an exhaustive boundary grid evaluated on the real Metadata methods under testing/synctest.",
             "Trusts: Coq kernel; hand-written transliteration tied by the differential grid; no int64 overflow; Go zero time = absent timeout. Pins: leeway = 5 min, min interval = 1 min.",
             "5/C08"),
+    "C02": ("Coq theorems on the symbolic callback model (all queries x cookie terms x providers) + full cross-product differential on the real router",
+            "c02_* over Model/Auth.v: the code is sent to the provider only after every browser-side check passed and the token request carries the cookie's verifier / redirect URI; a failed check sends nothing and creates nothing; the login cookie is always cleared; a cookie passes only with the state of the same attempt; another cookie type's ciphertext is rejected (c02_logout_cookie_refuted documents the pre-fix defect, fixed in /repo). The real router + handlers + openid client are driven over the full cross product of query parameters and cookie classes with a PKCE-enforcing fake provider and must agree with the model; a monitor built from the generator's ground truth checks the property on the provider log, store and Set-Cookie headers.",
+            "Trusts: Coq kernel; symbolic model (ideal AEAD, fresh atoms) tied by differential; fake provider; ID-token validation is C03's.",
+            "5/C02"),
+    "C04": ("Coq theorems over unbounded byte strings (net/url + path.Clean + http.Redirect + validators + WHATWG origin model) + exhaustive small-alphabet differential + Node WHATWG oracle",
+            "c04_*: exact language of the redirect regex (source pinned to the compiled code), shape of accepted paths, re-serialisation escapes backslashes/controls for all URL records, and end to end for standalone mode: Canonical / Clean(Canonical) yields the fallback or a Location that the WHATWG model resolves to the request origin, for every parameter; AbsoluteValidator accepts only http(s) URLs whose Go host is the allowed domain or a dot-suffix of it and whose authority text is what a WHATWG parser reads (no backslash / # / userinfo confusion). 4.4 M strings (exhaustive up to length 5 over a 17-symbol alphabet, repo test strings, random) go through the real functions of all three modes and must agree with the model; every emitted non-fallback Location is resolved by Node 20 and must stay on the allowed origin.",
+            "Trusts: Coq kernel; transliterations of Go's net/url, path, net/http tied by differential only; WHATWG model validated against Node only, IDNA as a parameter. SSO-server / SSO-proxy modes: proved up to authority agreement; the final origin step is covered by the differential + Node monitor, not by a theorem (partial). Handler call sites other than Canonical/Clean/LoginRelative are not driven.",
+            "5/C04"),
+    "C12": ("Coq theorems (doublestar loop on the fragment = declarative Matches: soundness, completeness, termination; NeedsLogin, cache, handler) + exhaustive differential vs doublestar and the real router",
+            "c12_*: glob_exec = Matches on the fragment (literals, *, **, /) with the exact side conditions (each refuted without), pattern normalisation of New, forwarded => some pattern matches the cleaned + trimmed path (c12_forwarded_matches_clean, the property's statement on the fixed code), dot-segment bypass refuted for the pre-fix code (fixed in /repo), memoisation = un-memoised decision for every call sequence, 302/401 + Location shape. 3 M pattern x name pairs (exhaustive over {a,b,/,.,*} to length 5) against doublestar.Match and path.Clean, NeedsLogin call sequences against the real AutoLogin, and ~7 k requests (dot segments, %2F, //, methods, fetch-metadata combinations) through the real router with a recording upstream.",
+            "Trusts: Coq kernel; byte-wise model of doublestar (runes in Go; invalid UTF-8 excluded), fragment without ? [ ] { } \\ for the theorems (GlobFull.v covers them by differential only). Known finding: doublestar under-matches '<seg>*/**' against '<seg>' (fails closed).",
+            "5/C12"),
+    "C13": ("Coq theorems on the symbolic login / logout model (all requests, ingress sets, histories) + differential on the real router with PAR / private-key variants",
+            "c13_*: request shape (code, query, S256 of the verifier draw), three distinct fresh draws per attempt and NoDup over every history, cookie seals exactly the attempt's values, redirect_uri / post-logout URI = callback of a configured ingress whose host is the Host or X-Forwarded-Host header and whose path is the longest configured prefix (for every order of Go's map iteration; no match => nothing sent), acr / locale / prompt allow-lists, PAR shows the browser only client_id + request_uri, credentials never in the front channel. 3 600 login / logout requests over ingress sets x acr defaults x PAR x client auth through the real router agree with the model; the monitor checks S256, cookie binding, uniqueness and length of all random values, verified client assertions (iss, sub, aud, 30 s, unique jti) and scans everything browser-visible for credentials.",
+            "Partial on 'unpredictable': that crypto/rand yields 256 bits of entropy is assumed; the theorem shows the values are fresh draws used nowhere else and the run measures length and uniqueness. Trusts as C02.",
+            "5/C13"),
+    "C16": ("Coq theorems (rs/cors origin test on all byte strings; router CORS placement; SSO-proxy threads of the machine are read-only) + differential on the real router / rs/cors + shared-store histories",
+            "c16_*: for every domain without '*' and ':' and every browser-producible origin, acceptance implies https, no port, host = domain or sub-domain (exact iff characterisation, completeness, refutations showing each hypothesis is needed); credentials only with an allowed origin, preflight only for registered methods, CORS only on the SSO endpoints; every KSsoProxy thread of the machine stays in read/done phases and leaves the world unchanged in every run; the server's Wildcard never proxies. 240 k origin / method / path cases through the real router with real rs/cors agree with the model; proxy + server histories over one wrapped Redis show only GETs from the proxy.",
+            "Trusts: Coq kernel; ASCII lower-casing (non-ASCII case folding of Go excluded), rs/cors modelled for the options wonderwall uses. Domains containing '*' or ':' are outside the property's quantifier (they are accepted by config validation: observation recorded in DESIGN.md).",
+            "5/C16"),
     "C01": ("Coq theorems on the session machine (token decision, direct path, refresh identity) + differential histories/faults/schedules vs the real stack",
             "Theorems c01_* over Model/Machine.v: a token is written only for a session record that is unexpired and satisfies the level, it is that record's token / ID token; on the direct path the record is the store entry opened by the cookie's data key at that very moment; conversely a valid session is always served and a non-session never. The model is tied to the real router+handlers+session manager+store by per-event conformance (operation, outcome, store snapshot) on generated histories, fault sequences and exhaustive 2-thread schedules under a fake clock; a monitor written from the property text checks every forwarded header on the implementation's traces.",
             "Trusts: Coq kernel; hand-written machine model tied by differential conformance; tokens/keys as abstract ids (ideal encryption); fake identity provider; miniredis as Redis. The refresh path's 'current token' clause is covered by the monitor on traces (the theorem covers the decision function and the direct path).",
